@@ -190,6 +190,8 @@ def verify_contract(reg: Registry, c: Contract, cfg: Config) -> FunctionReport:
             rep.completed_paths += 1
         if p.bounded:
             rep.bounded_labels.add(p.bounded)
+        for b in p.bounded_inputs:
+            rep.bounded_labels.add("bounded input " + b)
     if rep.completed_paths == 0:
         rep.status = "error"
         rep.reason = "vacuity guard: no path reached the end of the function (contradictory requires?)"
